@@ -74,6 +74,38 @@ def check_C01(tier):
         o = by_id[p["id"]]
         rec = {"t": "REPLAY", "kind": p["kind"], "id": p["id"], "path": p.get("path", [])}
         v.disagree(rec, "%r on path %r: %s (real engine)" % (L.expr_of(o), C.text(p.get("path", [])), p["kind"]))
+    # directed replays: the text a glob reports as invariant (and its display) is run through the real is_match /
+    # matched and judged by the documented language itself (spec/Member.tla), whatever the exported automaton says
+    directed = []
+    for o in obs:
+        if o["outcome"] != "ok" or o.get("qpanic"):
+            continue
+        q = o["q"]
+        for path in ([q["text"]] if q["has_text"] else []):
+            directed.append({"id": len(directed) + 1, "case": o["id"], "e": o["e"], "path": path})
+    n_directed = 0
+    if directed:
+        dpath = os.path.join(os.path.dirname(obs_path), "directed-%s-%d.ndjson" % (tier, os.getpid()))
+        L.write_ndjson(dpath, directed)
+        try:
+            mout, mst = C.tlc("Member.tla", "Member.cfg", env={"OBS": dpath}, timeout=3000, java_opts=["-Xmx8g"])
+        finally:
+            os.remove(dpath)
+        if not mst["ok"]:
+            C.log(mst.get("tail", ""))
+            raise C.ToolError("TLC did not complete on Member")
+        verdict = {r["id"]: r for r in C.tlc_records(mout) if r.get("t") == "MEMBER"}
+        ws = [{"id": d["case"], "path": d["path"], "mu": verdict[d["id"]]["mu"], "ma": verdict[d["id"]]["ma"], "im": None, "_d": d["id"]}
+              for d in directed if d["id"] in verdict and verdict[d["id"]]["parses"]]
+        for w in ws:
+            w["im"] = table_accepts(by_id[w["id"]], w["path"]) if by_id[w["id"]]["dfa"]["ok"] and all(c in by_id[w["id"]]["sigma"] for c in w["path"]) else None
+        n_directed, dproblems = L.replay_witnesses(by_id, ws)
+        for p in dproblems:
+            if p["kind"] == "table_vs_engine" and p.get("table") is None:
+                continue     # no automaton to compare with
+            o = by_id[p["id"]]
+            rec = {"t": "REPLAY", "kind": p["kind"], "id": p["id"], "path": p.get("path", []), "directed": True}
+            v.disagree(rec, "%r on its reported invariant text %r: %s (real engine)" % (L.expr_of(o), C.text(p.get("path", [])), p["kind"]))
     built = [o for o in obs if o["outcome"] == "ok"]
     usable = [o for o in built if o["dfa"]["ok"]]
     nontrivial = len({tuple(o["e"]) for o in usable if len(o["dfa"]["acc"]) > 2})
@@ -91,7 +123,8 @@ def check_C01(tier):
         raise C.ToolError("exported automaton and real engine disagree on %d witnesses" % len(tool))
     C.write_evidence("C01", tier, "model_checking", {
         "states": stats["distinct"], "transitions": stats["generated"],
-        "traces_validated_against_impl": n_replayed,
+        "traces_validated_against_impl": n_replayed + n_directed,
+        "directed_replays_of_reported_invariant_text": n_directed,
         "samples": samples,
         "evaluations": len(cases), "distinct_nontrivial": nontrivial,
         "rule": "cases = all balanced lexeme sequences of the families %s, mini and flags; non-trivial = built by wax, read by the documented syntax, and the minimised automaton over Sigma has more than 2 states" % (L.TIERS[tier],),
@@ -743,6 +776,9 @@ def lifecycle_traces(picked, rnd, per_fam):
         routes = [steps + ["any_text"],
                   [rnd.choice(IDENTITY_STEPS) for _ in range(rnd.randint(2, 4))] + ["any_compiled"],
                   [rnd.choice(IDENTITY_STEPS) for _ in range(rnd.randint(2, 4))] + ["any_nested"]]
+        # the combinator itself passed on: wrapped again, behind an empty combinator, wrapped again
+        routes[1 + len(lines) % 2][-1] += "_keep"
+        routes[1 + len(lines) % 2] += ["any_again", "any_mix_empty", "any_again", "any_again"]
         lines.append(json.dumps({"id": c["id"], "e": c["e"], "sigma": sigma, "paths": paths, "routes": routes}, separators=(",", ":")))
     out = C.run_wv(["lifecycle"], input_text="\n".join(lines) + "\n", timeout=3000)
     routes = collections.OrderedDict()
@@ -957,6 +993,18 @@ def library_scenarios(prop, tier, first_sid, rnd):
                     out.append({"sid": first_sid + len(out), "nodes": nodes, "follow": False, "min": -1, "max": -1, "rooted": rooted, "glob": C.cps(g),
                                 "walk_from": index["root"], "base": "abs", "tree": "plain", "origin": "library", "layers": st,
                                 "desc": "%sglob %r over tree plain with %d layers" % ("rooted " if rooted else "", g, len(st))})
+        # a negation with an exhaustive and a non-exhaustive alternative that both match a directory, alone and next to an
+        # entry filter in either order: the directory is discarded as a tree (nothing beneath it reaches the other layer)
+        for neg in ("{**/b/**,**/b}", "{a/**,a}", "{**/c,**/c/**,**/g}"):
+            for tname in ("plain", "deep"):
+                nodes2, index2 = W.tree(W.TREES[tname])
+                f = {"kind": "filter", "verdicts": {"root/f": "file"}}
+                n_ = {"kind": "not", "patterns": [C.cps(neg)], "mode": "text"}
+                for st in ([n_], [f, n_], [n_, f]):
+                    out.append({"sid": first_sid + len(out), "nodes": nodes2, "follow": False, "min": -1, "max": -1, "rooted": False,
+                                "walk_from": index2["root"], "base": "abs", "tree": tname, "origin": "library", "_neg": (neg,), "_base_text": "root",
+                                "_not_slot": st.index(n_), "layers": st,
+                                "desc": "path walk over tree %s with %s" % (tname, " then ".join("not(%r)" % neg if l is n_ else "filter_entry" for l in st))})
         return out
     if prop != "C13":
         return []
@@ -1065,13 +1113,15 @@ def library_oracles(prop, scenarios, results, yielded, v):
     accepts = exhaustive_tables(lib, "negwalk13")
     n = 0
     for h in lib:
-        slot = results[h["sid"]]["slot_of"][0]
+        slot = results[h["sid"]]["slot_of"][h.get("_not_slot", 0)]
         for y in yielded.get(h["sid"], []):
             if y["err"] != "none" or not y["verdicts"]:
                 continue
             rel = W.rel_to(y["text"], h["_base_text"])
             verdict = y["verdicts"][slot - 1]
             ex = accepts(h["_neg"][0], rel)
+            if y["ins"][slot - 1] != "F" and verdict == "keep":
+                continue   # (an entry that an earlier layer discarded and the negation does not match)
             n += 1
             if ex is True and verdict != "tree":
                 v.disagree({"t": "DISAGREE", "what": "exhaustive_match_not_discarded_as_tree", "sid": h["sid"], "scenario": h},
@@ -1241,6 +1291,7 @@ def negation_sound(tier, v, extra_patterns=()):
     # concatenated units: alternations and repetitions below the top level with branches of mixed exhaustiveness
     # (patterns reporting `sometimes`, which must stay out of the exhaustive program)
     cases += L.seq_cases(tier, len(cases) + 1)
+    cases += L.alg_cases(tier, len(cases) + 1)      # ranges of every shape under repetition (the depth algebra)
     for p in extra_patterns:
         sigma = sorted(set(C.cps(p)) - set(C.cps("{}<>:,*?[]()!-\\$0123456789")) | {97, 98, 47, 10})
         cases.append({"id": len(cases) + 1, "kind": "glob", "fam": "walkneg", "e": C.cps(p), "sigma": sigma})
@@ -1463,6 +1514,20 @@ def check_C14(tier):
         for base in ("abs", "trailing"):
             extra.append({"nodes": nodes, "follow": False, "min": -1, "max": -1, "glob": C.cps(g), "rooted": False, "walk_from": index["root"],
                           "base": base, "layers": [], "tree": "bytes", "origin": "library", "desc": "glob %r over tree bytes (names that are not UTF-8; %s)" % (g, base)})
+    # a walk that is given a symbolic link to a directory as its root (links read as targets): the root segment is
+    # the given path, not the link's target; also a glob whose literal prefix ends at the link
+    nodes, index = W.tree(W.TREES["links"])
+    for g in (None, "**", "*"):
+        for spelling in ("abs", "trailing"):
+            h = {"nodes": nodes, "follow": True, "min": -1, "max": -1, "rooted": False, "walk_from": index["root/a/tob"],
+                 "base": spelling, "layers": [], "tree": "links", "origin": "library",
+                 "desc": "%s from the link root/a/tob (links read as targets; %s)" % ("path walk" if g is None else "glob %r" % g, spelling)}
+            if g is not None:
+                h["glob"] = C.cps(g)
+            extra.append(h)
+    for g in ("a/tob/*", "a/tob/**", "a/up/b/*"):
+        extra.append({"nodes": nodes, "follow": True, "min": -1, "max": -1, "glob": C.cps(g), "rooted": False, "walk_from": index["root"],
+                      "base": "abs", "layers": [], "tree": "links", "origin": "library", "desc": "glob %r over tree links (its prefix ends at a link; links read as targets)" % g})
     for tname in ("plain", "deep", "links", "bytes"):
         nodes, index = W.tree(W.TREES[tname])
         for base in ("root", "root/a"):
@@ -1747,6 +1812,16 @@ def check_C20(tier):
                     if g is not None:
                         h["glob"] = C.cps(g)
                     scenarios.append(h)
+    # globs with a literal prefix and depth behaviours built through every constructor: faults beneath the prefix
+    for tname in ("loops", "nested", "faults"):
+        nodes, index = W.tree(specs[tname])
+        for follow in (False, True):
+            for (mn, mx, ctor) in ((1, -1, "bounded"), (1, -1, "from_min"), (2, -1, "bounded"), (1, 3, "from_depths"), (-1, 2, "from_max"), (-1, -1, "bounded")):
+                scenarios.append({"sid": len(scenarios) + 1, "nodes": nodes, "follow": follow, "min": mn, "max": mx, "ctor": ctor, "rooted": False,
+                                  "walk_from": index["root"], "base": "abs", "layers": [], "tree": tname, "origin": "library", "glob": C.cps("a/**"),
+                                  "trace_only": True,   # judged by trace validation (loops are relative to the walk's root, bounds by the pivot)
+                                  "desc": "glob 'a/**' over tree %s (links read as %s), depth %s..%s (%s)" % (
+                                      tname, "targets" if follow else "files", mn if mn > 0 else 0, mx if mx >= 0 else "inf", ctor)})
     # the walked directory itself is unreadable
     nodes, index = W.tree({"locked": ("locked", {"x": None})})
     scenarios.append({"sid": len(scenarios) + 1, "nodes": nodes, "follow": False, "min": -1, "max": -1, "rooted": False, "walk_from": index["root/locked"],
@@ -1788,7 +1863,7 @@ def check_C20(tier):
             unnamed = True
         else:
             unnamed = False
-        if h["origin"] == "model":
+        if h["origin"] == "model" or h.get("trace_only"):
             continue   # the model scenarios are judged by trace validation (Final: one error per fault, in place)
         start_text = next(iter(reachable(h)))
         for t, info in reachable(h).items():
